@@ -60,4 +60,8 @@ def write(summary, extra):
         json.dump(body, f, indent=1, ensure_ascii=True, default=str)
         f.write("\n")
     os.replace(tmp, path)
+    # a second copy per tier, so that a later quick run does not erase what the last thorough run covered
+    with open(os.path.join(EVIDENCE_DIR, f"{prop}.{summary['tier']}.json"), "w") as f:
+        json.dump(body, f, indent=1, ensure_ascii=True, default=str)
+        f.write("\n")
     return path
